@@ -9,6 +9,7 @@ From RPCX Require Select.Simple Select.Jump Select.DoubleJump.
 From RPCX Require XClient.Breaker.
 From RPCX Require Client.ClientSM.
 From RPCX Require XClient.FailMode XClient.Multi XClient.Discovery.
+From RPCX Require Server.Dispatch.
 Extraction Language OCaml.
 Extraction "model.ml"
   RoundRobin.rr_new RoundRobin.rr_run
@@ -25,4 +26,5 @@ Extraction "model.ml"
   ClientSM.run ClientSM.init ClientSM.new_call
   FailMode.xcall
   Multi.broadcast Multi.fork Multi.inform
-  Discovery.drun Discovery.drain Discovery.filter_servers.
+  Discovery.drun Discovery.drain Discovery.filter_servers
+  Dispatch.crun Dispatch.cinit.
